@@ -324,4 +324,15 @@ def broadcast(x, target):
     return x
 
 
-defjvp(anp.pad, lambda g, ans, array, width, mode, **kwargs: anp.pad(g, width, mode))
+
+
+def fwd_grad_pad(g, ans, array, width, mode, **kwargs):
+    if callable(mode) or mode in ("maximum", "minimum", "median"):
+        raise NotImplementedError(f"JVP of pad not implemented for mode={mode!r}")
+    # the padding is linear in the array up to constants (constant_values, end_values), which do not enter the tangent;
+    # reflect_type and stat_length select which linear map it is
+    linear_kwargs = {key: val for key, val in kwargs.items() if key in ("reflect_type", "stat_length")}
+    return anp.pad(g, width, mode, **linear_kwargs)
+
+
+defjvp(anp.pad, fwd_grad_pad)
